@@ -24,6 +24,7 @@ type MRec struct {
 	Pos       int
 	MapQ      byte
 	Key       int // name key for queryname order
+	PU        bool // placed but unmapped: flag 0x4 with a reference and a position (a read stored at its mate's place)
 }
 
 type Input struct {
@@ -68,6 +69,7 @@ func draw(t *rapid.T) Case {
 			if rapid.IntRange(0, 5).Draw(t, "placed") != 0 {
 				r.Ref = in.Refs[rapid.IntRange(0, len(in.Refs)-1).Draw(t, "ref")]
 				r.Pos = rapid.IntRange(0, 6).Draw(t, "pos") * 100
+				r.PU = rapid.IntRange(0, 4).Draw(t, "placedUnmapped") == 0
 			}
 			if rapid.Bool().Draw(t, "mate") {
 				r.Mate = in.Refs[rapid.IntRange(0, len(in.Refs)-1).Draw(t, "materef")]
@@ -196,6 +198,10 @@ func run(c Case, rec *h.Rec) {
 				sr.Ref = local[r.Ref]
 				sr.Cigar = sam.Cigar{sam.NewCigarOp(sam.CigarMatch, 4)}
 				sr.Seq = sam.NewSeq([]byte("ACGT"))
+				if r.PU {
+					sr.Cigar = nil
+					sr.Flags |= sam.Unmapped
+				}
 			} else {
 				sr.Flags |= sam.Unmapped
 			}
